@@ -409,6 +409,35 @@ def constant_bound_guards(fn, bb, local):
     return out
 
 
+def constant_bound_through_helpers(prog, fn, bb, local):
+    """the same, when the comparison was moved into a private checking helper (`ok!(check_width(width))`): read through
+    the helper, some side of a comparison of the value with a constant must be the only way to reach bb once the
+    helper's verdict - a `Result` built on both sides of the comparison - is followed to the test of it"""
+    from . import cfg
+    direct = constant_bound_guards(fn, bb, local)
+    if direct:
+        return direct
+    v = prog.view(fn.path) if not getattr(fn, "inlined", None) else fn
+    if not getattr(v, "inlined", None) or bb not in v.reachable:
+        return []
+    roots = {(o.kind, o.bb, o.arg, o.idx) for o in flow.origins(v, local)}
+    out = []
+    for sb in sorted(v.reachable):
+        if v.term(sb)["k"] != "switch":
+            continue
+        cd = flow.cond_of(v, sb)
+        if cd.kind != "bin" or cd.rv["op"] not in ("Lt", "Le", "Gt", "Ge"):
+            continue
+        a, b = cd.rv["a"], cd.rv["b"]
+        for x, y in ((a, b), (b, a)):
+            if "c" in y and "c" not in x and {(o.kind, o.bb, o.arg, o.idx) for o in flow.origins(v, x)} & roots:
+                for s_ in set(v.succ[sb]):
+                    if bb not in cfg.reach_with_variant_phis(v, {(sb, s_)}):
+                        out.append((sb, cd.rv["op"], y["c"].get("named") or y["c"].get("int")))
+                        break
+    return out
+
+
 def leaf_roots(fn, op, depth=0):
     """leaf origins of an arithmetic expression (bins expanded into their operands)"""
     out = set()
